@@ -12,7 +12,7 @@ from pathlib import Path
 V = Path("/verif")
 EXTRA = {"C08-l": ["C09"], "C11-l": ["C08"], "C03-l": ["C19"], "C17-j": ["C20"], "C02-k": ["C08"], "C06-j": ["C01"], "C09-j": ["C11"], "C02-a": ["C13"], "C14-a": ["C13"], "C04-b": ["C08"], "C13-a": ["C02"], "C11-a": ["C10"], "C03-b": ["C04"], "C08-a": ["C04"]}
 TIER = {"C15-b": "thorough", "C15-k": "thorough"}
-RUST = {"C15-a", "C15-b", "C19-b", "C07-d", "C15-c", "C15-d", "C19-d", "C15-e", "C15-f", "C07-e", "C19-f", "C02-h", "C07-g", "C19-g", "C15-g", "C15-h", "C07-j", "C15-i", "C15-j", "C15-k", "C15-l", "C07-o", "C07-p"}
+RUST = {"C15-a", "C15-b", "C19-b", "C07-d", "C15-c", "C15-d", "C19-d", "C15-e", "C15-f", "C07-e", "C19-f", "C02-h", "C07-g", "C19-g", "C15-g", "C15-h", "C07-j", "C15-i", "C15-j", "C15-k", "C15-l", "C07-o", "C07-p", "C03-n"}
 
 
 def sh(cmd, timeout=3600):
